@@ -5,6 +5,7 @@ package c18
 import (
 	"bytes"
 	"fmt"
+	"math/big"
 
 	"github.com/emmansun/gmsm/padding"
 
@@ -102,6 +103,59 @@ func widenLong(t *engine.T, sc scheme, bs int, lens []int) {
 			}
 		}
 	}
+}
+
+// ---------------------------------------------------------------------------------------------------------------
+// header-values: the method-3 length block taken as an *integer*. Single-byte substitutions (long/, trailer/) never
+// produce the values at which an accumulator of a particular width or signedness changes behaviour: 2^w and 2^w - 8k
+// for w in {7, 8, 15, 16, 31, 32, 63, 64, 8*bs-1, 8*bs} and every k up to a few blocks (e.g. the two's complement of
+// -8k in 64 bits), next to every small value. Each value is offered over 1..3 data blocks of two contents.
+func widenHeaderValues(t *engine.T, sc scheme, bs int) {
+	p := sc.new(uint(bs))
+	panicSeen := false
+	seen := map[string]bool{}
+	var vals []*big.Int
+	add := func(v *big.Int) {
+		if v.Sign() < 0 || v.BitLen() > 8*bs || seen[v.String()] {
+			return
+		}
+		seen[v.String()] = true
+		vals = append(vals, v)
+	}
+	maxD := int64(8 * (4*bs + 2))
+	for d := int64(0); d <= maxD; d++ {
+		add(big.NewInt(d))
+	}
+	for _, w := range []uint{7, 8, 15, 16, 31, 32, 63, 64, uint(8*bs - 1), uint(8 * bs)} {
+		pw := new(big.Int).Lsh(big.NewInt(1), w)
+		for d := int64(0); d <= maxD; d++ {
+			if d%8 > 1 && d%8 < 7 && d > 16 {
+				continue // multiples of 8 and their neighbours; everything below 16
+			}
+			add(new(big.Int).Add(pw, big.NewInt(d)))
+			add(new(big.Int).Sub(pw, big.NewInt(d)))
+		}
+	}
+	s := make([]byte, 4*bs)
+	for nb := 1; nb <= 3; nb++ {
+		for fill := 0; fill < 2; fill++ {
+			in := s[:bs+nb*bs]
+			for i := bs; i < len(in); i++ {
+				in[i] = 0
+				if fill == 1 {
+					in[i] = byte(0x11 + i)
+				}
+			}
+			for _, v := range vals {
+				v.FillBytes(in[:bs])
+				r := checkUnpadK(t, "header-values/", sc, bs, p, in, fmt.Sprintf("length block = %s over %d data block(s)", v.String(), nb), &panicSeen)
+				t.Eval(1)
+				t.Outcome("header-values/m3/" + r)
+			}
+		}
+	}
+	t.Nontrivial(fmt.Sprintf("header-values/m3/%d", bs))
+	t.Extra("m3_header_values", len(vals))
 }
 
 // ---------------------------------------------------------------------------------------------------------------
@@ -382,6 +436,16 @@ func runWiden(c *engine.Ctx) {
 				sc, bs := sc, bs
 				c.Case(fmt.Sprintf("W/long-2^21/%s/bs=%d", sc.id, bs), func(t *engine.T) { widenLong(t, sc, bs, longLensThorough) })
 			}
+		}
+	}
+	// header-values (method 3 only)
+	for _, sc := range schemes {
+		if sc.id != padref.M3 {
+			continue
+		}
+		for _, bs := range longBS {
+			sc, bs := sc, bs
+			c.Case(fmt.Sprintf("W/header-values/%s/bs=%d", sc.id, bs), func(t *engine.T) { widenHeaderValues(t, sc, bs) })
 		}
 	}
 	// trailer
